@@ -66,10 +66,10 @@ type vPtr struct {
 	Elem *elemRef // element of a named byte buffer
 }
 type vNilable struct { // interface / pointer-ish value whose nil-ness matters
-	ID  int
-	Nil int // 1 nil, 2 non-nil, 0 unknown
-	Dyn *ssa.Function // for function values: the known function
-	Inner lfVal       // for interfaces made from a known value
+	ID    int
+	Nil   int           // 1 nil, 2 non-nil, 0 unknown
+	Dyn   *ssa.Function // for function values: the known function
+	Inner lfVal         // for interfaces made from a known value
 }
 type vTuple []lfVal
 type vFloat struct { // E / Den as a real number
@@ -77,7 +77,10 @@ type vFloat struct { // E / Den as a real number
 	Den int64
 	Op  string // "", "ceil", "floor"
 }
-type vFunc struct{ Fn *ssa.Function; Bind []lfVal }
+type vFunc struct {
+	Fn   *ssa.Function
+	Bind []lfVal
+}
 type vOpaque struct{}
 
 // ---------------------------------------------------------------- state
@@ -202,19 +205,19 @@ type lfEngine struct {
 	copyTotal map[*ssa.Call]*lfCopy
 
 	// bits mode (engine E2)
-	bits     bool
-	recvObj  int                    // object id of the entry function's receiver
+	bits    bool
+	recvObj int // object id of the entry function's receiver
 	// tracked: objects whose fields are tracked by name: the receiver ("" prefix) and, when
 	// paramNames is set, pointer-to-struct parameters (prefix "<name>.")
 	arrOrg     map[string]int // local/field array → identity of its slices
 	paramSyms  map[int]Sym    // integer parameters of the entry function → their symbols
 	tracked    map[int]string
 	paramNames map[int]string // parameter index → name under which its fields are tracked
-	onStore  func(st *lfState, kind, name string, val string, pos token.Pos, b *bv)
-	onReturn func(st *lfState, rets []lfVal)
-	bufSeq   int
-	initR    *initReader
-	boolName map[int]string
+	onStore    func(st *lfState, kind, name string, val string, pos token.Pos, b *bv)
+	onReturn   func(st *lfState, rets []lfVal)
+	bufSeq     int
+	initR      *initReader
+	boolName   map[int]string
 	// fieldWidth: bits mode: wire width of receiver fields narrower than their
 	// Go type (values are assumed to be within their wire width)
 	fieldWidth map[string]int
@@ -2129,11 +2132,11 @@ func (e *lfEngine) execLoop(fr *lfFrame, st *lfState, l *Loop, from *ssa.BasicBl
 	h := l.Header
 	// phi nodes of the header and their entry values
 	type phiInfo struct {
-		phi   *ssa.Phi
-		entry lfVal
-		sym   Lin // fresh symbol standing for the value at the loop head (ints: value; slices: length)
-		isInt bool
-		isSl  bool
+		phi    *ssa.Phi
+		entry  lfVal
+		sym    Lin // fresh symbol standing for the value at the loop head (ints: value; slices: length)
+		isInt  bool
+		isSl   bool
 		stride int64 // every back edge adds this constant (0: none)
 		word   bool  // word-sized integer (no wrap-around under the engine's standing assumption)
 	}
@@ -2207,7 +2210,7 @@ func (e *lfEngine) execLoop(fr *lfFrame, st *lfState, l *Loop, from *ssa.BasicBl
 	}
 	// candidate invariants (each is a constraint over the head symbols and outer symbols)
 	type cand struct {
-		c    Cons
+		c     Cons
 		alive bool
 		// the same constraint with the head symbols replaced by the back-edge values is checked at each back edge
 	}
@@ -2633,8 +2636,8 @@ var lfContractPure = map[string]bool{
 	"crypto/hmac.Equal": true, "crypto/subtle.ConstantTimeCompare": true,
 	"(github.com/google/gopacket.DecodeFeedback).SetTruncated": true,
 	"(hash.Hash).Write": true, "(hash.Hash).Sum": true, "(hash.Hash).Reset": true, "(hash.Hash).Size": true, "(hash.Hash).BlockSize": true,
-	"(io.Writer).Write": true,
+	"(io.Writer).Write":               true,
 	"(crypto/cipher.Block).BlockSize": true, "crypto/cipher.NewCBCDecrypter": true, "crypto/cipher.NewCBCEncrypter": true,
-	"(crypto/cipher.BlockMode).CryptBlocks": true,
+	"(crypto/cipher.BlockMode).CryptBlocks":       true,
 	"github.com/gebn/bmc/internal/pkg/bcd.Decode": true,
 }
